@@ -114,11 +114,15 @@ pub fn check_schedule_opt(role: &str, log: &[Event], id: u64, items: &[Item], al
     Ok(last)
 }
 
-fn case<G: CurveTag>(bytes: &[u8], col: &mut Collector) -> Result<(), Failure> {
+fn case<G: CurveTag>(bytes: &[u8], col: &mut Collector, large: bool) -> Result<(), Failure> {
     let cut = bytes.len().min(8);
     let mut chi = Choices::new(&bytes[..cut]);
     let bad = chi.chance(64);
-    let cfg = GenCfg { max_ops1: 12, max_closures: 3, max_ops2: 8, max_commits: 4, big_gates: 0 , max_terms: 4, wide: false};
+    let cfg = if large {
+        GenCfg { max_ops1: 16, max_closures: 5, max_ops2: 8, max_commits: 10, big_gates: 140, max_terms: 6, wide: false }
+    } else {
+        GenCfg { max_ops1: 12, max_closures: 3, max_ops2: 8, max_commits: 4, big_gates: 0, max_terms: 4, wide: false }
+    };
     let (mut prog, label) = if bad {
         let (p, l) = gen_bad(&bytes[cut..], G::CURVE, &cfg);
         (p, format!("bad witness ({})", l))
@@ -246,7 +250,8 @@ fn case<G: CurveTag>(bytes: &[u8], col: &mut Collector) -> Result<(), Failure> {
 
 fn dispatch(sub: &str, bytes: &[u8], col: &mut Collector) -> Result<(), Failure> {
     let curve = Curve::from_name(sub.split('/').nth(1).unwrap_or("")).unwrap_or(Curve::Secq);
-    with_curve!(curve, G => case::<G>(bytes, col))
+    let large = sub.ends_with("/large");
+    with_curve!(curve, G => case::<G>(bytes, col, large))
 }
 
 pub fn replay(sub: &str, bytes: &[u8], col: &mut Collector) -> Result<(), Failure> {
@@ -268,6 +273,9 @@ pub fn run(tier: &str, seed: u64) -> i32 {
         let sub = format!("c06/{}", c.name());
         rep.outcome.merge(replay_corpus("C06", &sub, &|b, col| dispatch(&sub, b, col)));
         rep.outcome.merge(search(&sub, seed, n, 600, &|b, col| dispatch(&sub, b, col)));
+        let subl = format!("c06/{}/large", c.name());
+        let nl = super::scale(tier, 16, 200);
+        rep.outcome.merge(search(&subl, seed, nl, 900, &|b, col| dispatch(&subl, b, col)));
     }
     for (c, f) in [("two-phase", 0.2), ("closure-challenges", 0.1), ("user-data", 0.1), ("bad-witness", 0.1), ("k=2", 0.05), ("owned-transcript", 0.1), ("returned-transcripts-compared", 0.3), ("clone-derived-weight-checked", 0.5), ("altered-proof-run", 0.5)] {
         rep.required_classes.push((c.to_string(), f));
